@@ -9,6 +9,7 @@ package fzf
 import (
 	"encoding/json"
 	"fmt"
+	"sync/atomic"
 	"testing"
 	"time"
 
@@ -51,9 +52,9 @@ func TestVerifMatcherSchedules(t *testing.T) {
 	defer out.Close()
 	arrive := make(chan struct{})
 	release := make(chan struct{})
-	gated := false
+	var gatedFlag int32
 	verifGateFn = func(name string, a int, b int) {
-		if name == "scan.chunk" && gated {
+		if name == "scan.chunk" && atomic.LoadInt32(&gatedFlag) == 1 {
 			arrive <- struct{}{}
 			<-release
 		}
@@ -149,7 +150,7 @@ func TestVerifMatcherSchedules(t *testing.T) {
 		} else {
 			pushTo(c.N)
 			snap, cnt, _ := cl.Snapshot(0)
-			gated = true
+			atomic.StoreInt32(&gatedFlag, 1)
 			m.Reset(snap, []rune(c.Q1), false, true, false, revision{})
 			for j := 1; j < c.K; j++ {
 				<-arrive
@@ -159,7 +160,7 @@ func TestVerifMatcherSchedules(t *testing.T) {
 			m.Reset(snap, []rune(c.Q2), true, true, false, revision{})
 			release <- struct{}{}
 			time.Sleep(2 * time.Millisecond)
-			gated = false
+			atomic.StoreInt32(&gatedFlag, 0)
 			done := make(chan bool)
 			go func() { // release whoever is still held or arrives late
 				for {
